@@ -292,4 +292,35 @@ def fam_registry(seed, i):
     return sc
 
 
-FAMILIES = {"core": fam_core, "life": fam_life, "fail": fam_fail, "restart": fam_restart, "timeout": fam_timeout, "timers": fam_timers, "tree": fam_tree, "registry": fam_registry}
+def fam_stream(seed, i):
+    """C13: stream-attached actors; streams empty / finite / never-ending / never-ready / bursts under client control."""
+    rng = random.Random(f"stream-{seed}-{i}")
+    sc = base("stream", seed, i, rng, horizon=6)
+    shape = rng.choice(["empty", "finite", "finite", "neverending", "neverready", "bursts", "bursts"])
+    items0 = {"empty": 0, "finite": rng.randint(1, 4), "neverending": rng.randint(0, 3), "neverready": 0, "bursts": rng.randint(0, 2)}[shape]
+    ended0 = shape in ("empty", "finite")
+    cfg = {"cap": rng.choice([-1, -1, 0, 1, 2]), "strat": "none", "stream": True, "items0": items0, "ended0": ended0,
+           "iscr": [Y] * rng.choice([0, 1, 1]), "fscr": [Y] * rng.choice([0, 1]), "pscr": [Y] * rng.choice([0, 1]),
+           "sscr": [[Y] * rng.choice([0, 1])], "owning": rng.random() < 0.3}
+    if rng.random() < 0.08:
+        cfg["sscr"] = [[eff("err")]]
+    ncl = rng.randint(1, 3)
+    names = [f"c{k+1}" for k in range(ncl)]
+    kinds = {c: rng.choice(["addr", "addr", "sender", "caller", "waddr"]) for c in names}
+    if cfg["owning"]:
+        kinds[rng.choice(names)] = "owning"
+    main, handles = setup_main(rng, cfg, kinds, rng.random() < 0.4, entry=rng.choice(["builder", "builder", "trait"]))
+    sc["clients"]["main"] = main
+    w = {"send": 5, "call": 4, "yield": 3, "drop": 2, "stop": 1.2, "await": 1, "halt": 0.5, "join": 0.7, "stopped": 0.7, "upgrade": 0.7, "ping": 0.5}
+    if shape in ("bursts", "neverending"):
+        w["feed"] = 4
+    if shape == "bursts":
+        w["end_stream"] = 1
+    scripts = [[], [Y], [eff("ctx_stop")], [Y, Y]]
+    cnt = [0]
+    for c in names:
+        sc["clients"][c] = Prog(rng, c, handles.get(c, {}), w, scripts, cnt).run(rng.randint(1, 8))
+    return sc
+
+
+FAMILIES = {"core": fam_core, "life": fam_life, "fail": fam_fail, "restart": fam_restart, "timeout": fam_timeout, "timers": fam_timers, "tree": fam_tree, "registry": fam_registry, "stream": fam_stream}
